@@ -81,6 +81,18 @@ def run_case(case, acc, tier):
         return
     acc.counters["accepted"] += 1
     acc.counters["accepted." + cls] += 1
+    # history: converting the very same source again (same process) must give
+    # the same program text - nothing may be cached or mutated by the first pass
+    try:
+        scfg2, fdef2 = pipeline(src)
+        out2 = ast.unparse(ast.fix_missing_locations(fdef2))
+        acc.counters["second_round_trips"] += 1
+        if out2 != out_src:
+            ctx.violation("C07", "second_round_trip_of_same_source_differs",
+                          {"first": out_src[:800], "second": out2[:800]})
+    except Exception as e:
+        k = exc_key(e)
+        ctx.violation("C07", f"second_round_trip_raised:{k['type']}@{k['site']}", k)
     nt = None
     if cls != "realsrc":
         makers = collections.OrderedDict()
